@@ -1054,6 +1054,8 @@ def judge_model(ctx: Ctx, b: Built, stream: str, mutants: bool) -> None:
 
 
 def _schema_error_class(s: str) -> str:
+    if "overlap and are in the same 'choice'" in s:
+        return "duplicate-choice-alternative"
     for key in ("escape", "quantifier", "meta character", "character range", "unknown", "missing", "not allowed", "duplicat"):
         if key in s:
             return key.replace(" ", "-")
